@@ -3,6 +3,7 @@
 package main
 
 import (
+	"golang.org/x/crypto/bcrypt"
 	"crypto/tls"
 	"sync/atomic"
 	"crypto/hmac"
@@ -222,7 +223,7 @@ func newEnv(c *suiteCtx, cfg proxyCfg) (*testEnv, error) {
 		}
 		sort.Strings(users)
 		for _, u := range users {
-			sb.WriteString(u + ":" + htpasswdSHA(cfg.Htpasswd[u]) + "\n")
+			sb.WriteString(u + ":" + htpasswdEntry(cfg.Htpasswd[u]) + "\n")
 		}
 		p := filepath.Join(tmp, "htpasswd")
 		os.WriteFile(p, []byte(sb.String()), 0o600)
@@ -364,6 +365,30 @@ func newEnv(c *suiteCtx, cfg proxyCfg) (*testEnv, error) {
 	e.opts = o
 	e.proxy = p
 	return e, nil
+}
+
+// htpasswdEntry: "pw" → SHA entry; "bcrypt:pw" → bcrypt entry (minimum cost); "raw:<text>" → the text verbatim (a hash
+// damaged in the file: no password at all is the right one)
+func htpasswdEntry(spec string) string {
+	switch {
+	case strings.HasPrefix(spec, "bcrypt:"):
+		h, _ := bcrypt.GenerateFromPassword([]byte(strings.TrimPrefix(spec, "bcrypt:")), bcrypt.MinCost)
+		return string(h)
+	case strings.HasPrefix(spec, "raw:"):
+		return strings.TrimPrefix(spec, "raw:")
+	}
+	return htpasswdSHA(spec)
+}
+
+// htpasswdPassword: the password that entry accepts ("", false for a damaged one)
+func htpasswdPassword(spec string) (string, bool) {
+	switch {
+	case strings.HasPrefix(spec, "bcrypt:"):
+		return strings.TrimPrefix(spec, "bcrypt:"), true
+	case strings.HasPrefix(spec, "raw:"):
+		return "", false
+	}
+	return spec, true
 }
 
 func htpasswdSHA(pw string) string {
